@@ -46,4 +46,7 @@ EmptyOnlyWhenEmpty == \A i \in Kind("empty") :
 JoinExact == \A i \in Kind("join") :
                 Cardinality({j \in Kind("task_done") : H[j].t0 <= H[i].t1})
                   >= Cardinality({j \in Kind("put") : H[j].t1 <= H[i].t0})
+(* every party came back from its calls: nobody is stuck in put / get / join for good, no get
+   fails on a damaged stream, no party dies *)
+NobodyStuck == \A i \in Idx : H[i].k \notin {"party_hung", "party_died", "join_hung", "get_error", "put_error"}
 =============================================================================
